@@ -104,6 +104,7 @@ structure W where
   bufSize : Nat := 0                -- len(w.data)
   cks : XXH.State := XXH.zero
   deferred : Option Err := none     -- Blocks.err (concurrent mode)
+  savedIdx : Nat := 0               -- Frame.savedBlockSizeIndex: the configured index hidden by a legacy frame (0 = none)
   sink : Sink := {}
 
 def writerStates (s : Nat) : Nat :=
@@ -136,8 +137,10 @@ def init (w : W) : W × Option Err :=
         (if flagSize flags then le64 cfg.contentSize else #[])
       le32 frameMagic ++ d ++ #[((XXH.checksumZero d.toList).toNat / 256 % 256).toUInt8]
   let (sink, e) := w.sink.write hdr
+  -- InitW (legacy): remember the configured block size index before imposing the 8 MiB one
+  let saved := if cfg.legacy ∧ blockSizeIndex w.cfg.flags ≠ indexOf Block8Mb then blockSizeIndex w.cfg.flags else w.savedIdx
   ({ w with cfg := cfg, magicLegacy := cfg.legacy, pending := #[], bufSize := poolSize (blockSizeIndex flags),
-            cks := XXH.reset w.cks, deferred := none, sink := sink }, e)
+            cks := XXH.reset w.cks, deferred := none, savedIdx := saved, sink := sink }, e)
 
 /-- `Writer.write(data)` : one block through compress + sink -/
 def writeOne (w : W) (data : Array UInt8) : W × Option Err :=
@@ -230,7 +233,9 @@ def close (w : W) : W × Option Err :=
 
 /-- `Writer.Reset(w')`: the frame is reset (`Frame.Reset`), the state machine restarts; options stay -/
 def reset (w : W) (failAt : Option Nat) : W :=
-  { w with st := stNew, err := none, deferred := none, sink := { failAt := failAt } }
+  -- Frame.Reset restores the block size index that a legacy frame had replaced
+  let cfg := if w.savedIdx ≠ 0 then { w.cfg with flags := blockSizeIndexSet w.cfg.flags w.savedIdx.toUInt16 } else w.cfg
+  { w with cfg := cfg, savedIdx := 0, st := stNew, err := none, deferred := none, sink := { failAt := failAt } }
 
 /-- `Writer.ReadFrom(r)` -/
 def readFrom (w : W) (src : Source) : W × Source × Nat × Option Err :=
